@@ -309,7 +309,7 @@ func Array[V any](arguments ...any) col.ArrayLike[V] {
 		var index int = 1 // Indices are ORDINAL based.
 		var iterator = collection.GetIterator()
 		for iterator.HasNext() {
-			var value = iterator.GetNext().(V)
+			var value = convert[V](iterator.GetNext())
 			array.SetValue(index, value)
 			index++
 		}
@@ -381,8 +381,8 @@ func Catalog[K comparable, V any](arguments ...any) col.CatalogLike[K, V] {
 		var iterator = collection.GetIterator()
 		for iterator.HasNext() {
 			var association = iterator.GetNext()
-			var key = association.GetKey().(K)
-			var value = association.GetValue().(V)
+			var key = convert[K](association.GetKey())
+			var value = convert[V](association.GetValue())
 			catalog.SetValue(key, value)
 		}
 	default:
@@ -446,7 +446,7 @@ func List[V any](arguments ...any) col.ListLike[V] {
 		// Convert the values to their real type.
 		var iterator = collection.GetIterator()
 		for iterator.HasNext() {
-			var value = iterator.GetNext().(V)
+			var value = convert[V](iterator.GetNext())
 			list.AppendValue(value)
 		}
 	default:
@@ -517,8 +517,8 @@ func Map[K comparable, V any](arguments ...any) col.MapLike[K, V] {
 		var iterator = collection.GetIterator()
 		for iterator.HasNext() {
 			var association = iterator.GetNext()
-			var key = association.GetKey().(K)
-			var value = association.GetValue().(V)
+			var key = convert[K](association.GetKey())
+			var value = convert[V](association.GetValue())
 			map_.SetValue(key, value)
 		}
 	default:
@@ -591,7 +591,7 @@ func Queue[V any](arguments ...any) col.QueueLike[V] {
 		// Convert the values to their real type.
 		var iterator = collection.GetIterator()
 		for iterator.HasNext() {
-			var value = iterator.GetNext().(V)
+			var value = convert[V](iterator.GetNext())
 			list.AppendValue(value)
 		}
 		queue = class.MakeFromSequence(list)
@@ -664,7 +664,7 @@ func Set[V any](arguments ...any) col.SetLike[V] {
 			// Convert the values to their real type.
 			var iterator = collection.GetIterator()
 			for iterator.HasNext() {
-				var value = iterator.GetNext().(V)
+				var value = convert[V](iterator.GetNext())
 				set.AddValue(value)
 			}
 		}
@@ -678,7 +678,7 @@ func Set[V any](arguments ...any) col.SetLike[V] {
 		// Convert the values to their real type.
 		var iterator = collection.GetIterator()
 		for iterator.HasNext() {
-			var value = iterator.GetNext().(V)
+			var value = convert[V](iterator.GetNext())
 			set.AddValue(value)
 		}
 	default:
@@ -751,7 +751,7 @@ func Stack[V any](arguments ...any) col.StackLike[V] {
 		// Convert the values to their real type.
 		var iterator = collection.GetIterator()
 		for iterator.HasNext() {
-			var value = iterator.GetNext().(V)
+			var value = convert[V](iterator.GetNext())
 			list.AppendValue(value)
 		}
 		stack = class.MakeFromSequence(list)
@@ -759,4 +759,19 @@ func Stack[V any](arguments ...any) col.StackLike[V] {
 		stack = class.Make()
 	}
 	return stack
+}
+
+// PRIVATE FUNCTIONS
+
+/*
+convert[T] returns the specified parsed value as a value of type T.  An
+undefined (nil) parsed value converts to the undefined value of an interface
+type T; any other mismatch panics as a failed type assertion does.
+*/
+func convert[T any](value any) T {
+	if value == nil && ref.TypeOf((*T)(nil)).Elem().Kind() == ref.Interface {
+		var undefined T
+		return undefined
+	}
+	return value.(T)
 }
